@@ -440,8 +440,8 @@ func ratUnit(decimals int) *big.Rat {
 
 // Strings with no numeric reading under any convention: they hold a character
 // that appears in no integer, decimal, exponent, hex, infinity or NaN
-// spelling — or they are empty.
-var nonNumericFixed = []string{"", "k", "12k", "k12", "#", "1;2", "zz top", "five", "$5", "12:30", "ten%", "[1]", "~1", "1h", "ü", "1\x002", "1\tq", "<BAD-TYPE>", "NULL", "-k"}
+// spelling — or they are empty, or consist of signs / points / underscores only.
+var nonNumericFixed = []string{"-", "+", "-", "--", "+-", ".", "-.", "_", "", "k", "12k", "k12", "#", "1;2", "zz top", "five", "$5", "12:30", "ten%", "[1]", "~1", "1h", "ü", "1\x002", "1\tq", "<BAD-TYPE>", "NULL", "-k"}
 
 // numericAlphabet holds every character that occurs in some numeric spelling
 // (decimal, exponent, hex float, digit separators, inf/infinity/nan, padding).
@@ -451,6 +451,11 @@ const numericAlphabet = "0123456789+-._ \t\n\r" + "abcdefABCDEF" + "xXpP" + "iIn
 // Only such values are asserted to produce the error marker.
 func clearlyNonNumeric(s string) bool {
 	if s == "" {
+		return true
+	}
+	// no digit and no letter: a lone sign, point or separator ("-" is the
+	// usual access-log placeholder for "no value") spells no number
+	if !strings.ContainsAny(s, "0123456789") && strings.Trim(s, "+-._") == "" {
 		return true
 	}
 	for _, r := range s {
